@@ -1,5 +1,5 @@
 From Coq Require Import ZArith String List Bool Lia Sorted.
-From Flox Require Import ListX Val Agg ValAlg Hom Spec Pipeline PipelineLaw Registry C04Proofs C02Proofs Factorize FactorizeLaw.
+From Flox Require Import ListX Val Agg ValAlg Hom Spec Pipeline PipelineLaw Registry C04Proofs C02Proofs Factorize FactorizeLaw Reindex ReindexLaw.
 Import ListNotations.
 Open Scope Z_scope.
 
@@ -76,4 +76,14 @@ Lemma labels_are_those_requested :
 Proof.
   intros ex labels. split; [reflexivity|].
   intros H. apply groups_sorted. now intros ? [= <-].
+Qed.
+
+Lemma reindex_one_slot :
+  forall (from_ to : list Z) (fill : Z) vals j l,
+    NoDup from_ -> length vals = length from_ -> nth_error to j = Some l ->
+    length (reindex from_ to fill vals) = length to /\
+    (forall i, nth_error from_ i = Some l -> nth j (reindex from_ to fill vals) fill = nth i vals fill) /\
+    (~ In l from_ -> nth j (reindex from_ to fill vals) fill = fill).
+Proof.
+  intros from_ to fill vals j l Hnd Hlen Hj. split; [apply reindex_length|]. now apply reindex_slot.
 Qed.
